@@ -163,6 +163,391 @@ def directed_states(rng, tbl, op, n):
         yield simcorr.rand_state(rng, tbl, op, t_bias=t_bias)
 
 
+def c_suspect_slots(chk):
+    """C handlers whose translation (Gen/CH/<h>.lean plain build, Gen/CCmioH/<h>.lean contended build) differs
+    from the committed (clean-tree) version -> the slots of the C dispatch table that call them; rows of
+    Gen/CDispatch.lean that changed are suspects too.  -> sorted [(tbl, op)]"""
+    import os, re, subprocess
+    from framework import VERIF
+    gen = os.path.join('lean', 'SkoolVerif', 'Gen')
+    hit = set()
+    for sub in ('CH', 'CCmioH'):
+        d = os.path.join(VERIF, gen, sub)
+        if not os.path.isdir(d):
+            continue
+        for fn in sorted(os.listdir(d)):
+            if not fn.endswith('.lean'):
+                continue
+            try:
+                new = open(os.path.join(d, fn)).read()
+            except OSError:
+                continue
+            p = subprocess.run(['git', '-C', VERIF, 'show', f'HEAD:{gen}/{sub}/{fn}'], capture_output=True, text=True)
+            if p.returncode != 0 or p.stdout != new:
+                hit.add(fn[:-5])
+    rel = os.path.join(gen, 'CDispatch.lean')
+    try:
+        new = open(os.path.join(VERIF, rel)).read()
+    except OSError:
+        new = ''
+    old = subprocess.run(['git', '-C', VERIF, 'show', 'HEAD:' + rel], capture_output=True, text=True).stdout
+
+    def rows(text):
+        r = {}
+        for m in re.finditer(r'def tbl_(\w+) : Array Instr := #\[(.*?)\n\]', text, re.S):
+            r[m.group(1)] = [l.strip().rstrip(',') for l in m.group(2).strip().split('\n')]
+        return r
+    ra, rb = rows(old), rows(new)
+    slots = {}
+    for tbl, lines in rb.items():
+        for op, line in enumerate(lines):
+            mm = re.match(r'\.(\w+)', line)
+            if (mm and mm.group(1) in hit) or (tbl in ra and op < len(ra[tbl]) and ra[tbl][op] != line):
+                slots[(tbl, op)] = line
+    if slots:
+        chk.note('directed search: C handlers whose translation changed vs the committed tree: ' + (', '.join(sorted(hit)) or '(dispatch rows only)')
+                 + f'; {len(slots)} slots')
+    return sorted(slots)
+
+
+ADDR_EDGES = (0x0000, 0x0001, 0x0002, 0x3FFD, 0x3FFE, 0x3FFF, 0x4000, 0x4001, 0x4002, 0x7FFE, 0x7FFF, 0x8000, 0x8001,
+              0xBFFF, 0xC000, 0xC001, 0xFFFD, 0xFFFE, 0xFFFF)
+
+
+def edge_states(rng, tbl, op, frame=69888, int_active=32, light=False):
+    """Deterministic edge sweep for a suspect slot.  (a) every address the instruction can form from a register
+    pair, SP or an nn operand, placed on every 16K-region / 64K edge (HL, DE, BC, IX, IY, SP and nn all set to the
+    edge value; displacement bytes 0, 1, -1, 127, -128), with the code away from the operands; (b) PC on the same
+    edges; (c) loop counters 0/1/2 and R at its 7-bit wrap; (d) the clock placed so that the instruction ends on,
+    just before and just after the end of the interrupt window (IFF set), and on the frame boundary."""
+    def base(pc=None):
+        regs, fields, mem, ins, tracers = simcorr.rand_state(rng, tbl, op, t_bias=t_bias)
+        if pc is not None:
+            old = fields[0]
+            code = [mem.get((old + j) % 65536, 0) for j in range(4)]
+            for j in range(4):
+                mem.pop((old + j) % 65536, None)
+            for j, b in enumerate(code):
+                mem[(pc + j) % 65536] = b
+            fields[0] = pc
+        return regs, fields, mem, ins, tracers
+
+    two = len(simcorr.PREFIXES[tbl]) == 2
+    k0 = len(simcorr.PREFIXES[tbl]) + (0 if two else 1)          # index of the first operand byte
+    for v in ADDR_EDGES:
+        for d in ((0x00, 0x01) if light else (0x00, 0x01, 0xFF, 0x7F, 0x80)):
+            pc = 0x9000 if 0x8F00 <= v <= 0x9100 else rng.choice((0x9000, 0x6000, 0xA123))
+            regs, fields, mem, ins, tracers = base(pc)
+            for hi, lo in ((6, 7), (4, 5), (2, 3), (8, 9), (10, 11)):
+                regs[hi], regs[lo] = v >> 8, v & 255
+            regs[12] = v
+            if two or tbl in ('DD', 'FD'):
+                mem[(pc + 2) % 65536] = d
+                if not two:
+                    mem[(pc + 3) % 65536] = rng.randrange(256)
+            if not two and d in (0x00, 0x01):
+                # nn operand = the edge value (LD (nn),rr / LD rr,(nn) / JP / CALL ...)
+                mem[(pc + k0) % 65536] = v & 255
+                mem[(pc + k0 + 1) % 65536] = v >> 8
+                if tbl in ('DD', 'FD') and d == 0x01:
+                    mem[(pc + 2) % 65536] = v & 255
+                    mem[(pc + 3) % 65536] = v >> 8
+            for a in (v - 2, v - 1, v, v + 1, v + 2):
+                mem.setdefault(a % 65536, rng.randrange(256))
+            yield regs, fields, mem, ins, tracers
+    for pc in ADDR_EDGES:
+        yield base(pc)
+    for b in (0, 1, 2):
+        for c in (0, 1, 0xFF):
+            for r in (0x7E, 0x7F, 0xFE, 0xFF):
+                regs, fields, mem, ins, tracers = base()
+                regs[2], regs[3], regs[15] = b, c, r
+                yield regs, fields, mem, ins, tracers
+    for dur in range(4, 24):
+        for dt in ((0,) if light else (-1, 0, 1)):
+            for t in (frame * rng.randrange(1, 3) + int_active - dur + dt, frame * rng.randrange(1, 3) - dur + dt):
+                regs, fields, mem, ins, tracers = base(rng.choice((0x9000, 0x6000)))
+                fields[1] = t
+                fields[2] = 1
+                regs[2] = rng.choice((1, 2, regs[2]))
+                yield regs, fields, mem, ins, tracers
+
+
+def guarded(chk, group, fn, *args, **kw):
+    """Run one e2e group; an exception raised INSIDE the code under test (innermost frames in REPO) is a
+    violation (the real code must not raise on the inputs the groups generate), not a harness failure."""
+    import os, traceback
+    from framework import REPO, Infra
+    try:
+        return fn(*args, **kw)
+    except Infra:
+        raise
+    except Exception as e:
+        tb = traceback.extract_tb(e.__traceback__)
+        root = os.path.realpath(REPO) + os.sep
+        inner = [f for f in tb if os.path.realpath(f.filename).startswith(root)]
+        if not inner and tb and any(c in (tb[-1].line or '') for c in ('.run(', '.accept_interrupt(', '.set_tracer(', '.exec_frame(', '.trace(')):
+            inner = [tb[-1]]             # raised by the C extension itself (no Python frame of its own)
+        if not inner:
+            raise
+        f = inner[-1]
+        chk.violation(f'exception:{group}:{os.path.basename(f.filename)}:{f.name}',
+                      f'{group}: the code under test raised {type(e).__name__}: {e} at {os.path.basename(f.filename)}:{f.lineno} `{f.line}`',
+                      {'kind': 'group-exception', 'group': group})
+        return None
+
+
+# ---- the speed-up closures Simulator.djnz_fast / ldir_fast (config fast_djnz / fast_ldir: trace.py without -v, #SIM,
+#      #AUDIO, #TSTATES): not translated (they execute a whole loop per call); checked here against the per-iteration
+#      closures and the property oracles ------------------------------------------------------------------------------
+
+def fast_cases(rng, n):
+    """-> (kind, regs, fields, mem): DJNZ loops to itself and LDIR/LDDR blocks with IFF 0/1, boundary counters, R at its
+    7-bit wrap, destination crossing the ROM boundary / the 64K wrap / the instruction itself, overlapping source."""
+    B8 = (0, 1, 2, 3, 0x7F, 0x80, 0xFE, 0xFF)
+    for k in range(n):
+        kind = ('djnz', 'ldir', 'lddr')[k % 3]
+        regs = [rng.randrange(256) for _ in range(24)]
+        regs[13] = 0
+        regs[12] = rng.randrange(65536)
+        regs[15] = rng.choice((0x00, 0x7E, 0x7F, 0x80, 0xFE, 0xFF, rng.randrange(256)))
+        pc = rng.choice((0x8000, 0x8000, 0xFFFE, 0xFFFF, 0x3FFE, 0x4000, 0x7FFF, rng.randrange(65536)))
+        fields = [pc, t_bias(rng), 0 if rng.randrange(5) else 1, rng.randrange(3), 0, rng.randrange(65536)]
+        mem = {}
+        if kind == 'djnz':
+            mem[pc] = 0x10
+            mem[(pc + 1) % 65536] = 0xFE if rng.randrange(6) else rng.choice((0x00, 0xFD, 0xFF, 0x7F, 0x80))
+            regs[2] = rng.choice(B8 + (rng.randrange(256),))
+        else:
+            inc = 1 if kind == 'ldir' else -1
+            mem[pc] = 0xED
+            mem[(pc + 1) % 65536] = 0xB0 if kind == 'ldir' else 0xB8
+            bc = rng.choice((1, 2, 3, 5, 9, 0x10, 0x101, rng.randrange(1, 0x300)))
+            if rng.randrange(40) == 0:
+                bc = rng.choice((0, 0xFFFF))
+            c = rng.randrange(7)
+            if c == 0:      # destination crosses the ROM boundary
+                de = (0x4000 - inc * rng.randrange(0, min(bc, 6) + 1) - (1 if inc > 0 else 0)) % 65536
+            elif c == 1:    # destination crosses the 64K wrap
+                de = (0x10000 - inc * rng.randrange(0, min(bc, 6) + 1) - (1 if inc > 0 else 0)) % 65536
+            elif c == 2:    # destination runs into the instruction itself
+                de = (pc - inc * rng.randrange(0, min(bc, 8) + 1) + rng.randrange(2)) % 65536
+            elif c == 3:    # all in ROM
+                de = rng.randrange(0x3F00)
+            else:
+                de = rng.choice((0x4000, 0x5800, 0x7FFF, 0xC000, rng.randrange(0x4000, 65536)))
+            hl = rng.choice(((de - inc) % 65536, (de + inc) % 65536, de, rng.randrange(65536), rng.randrange(0x4000)))
+            regs[2], regs[3] = bc >> 8, bc & 255
+            regs[4], regs[5] = de >> 8, de & 255
+            regs[6], regs[7] = hl >> 8, hl & 255
+            n_it = bc or 65536
+            for j in range(min(n_it, 40)):
+                mem.setdefault((hl + inc * j) % 65536, rng.randrange(256))
+        yield kind, regs, fields, mem
+
+
+class FastRunner:
+    """One Simulator per configuration on a logging 48K memory, reset per case."""
+
+    def __init__(self, sim_cls, config, is_c=False):
+        self.is_c = is_c
+        if is_c:
+            self.sim = sim_cls([0] * 65536, config=dict(config) if config else None)
+            self.memory = self.sim.memory
+        else:
+            self.memory = simcorr.LogMem([0] * 65536)
+            self.sim = sim_cls(self.memory, config=dict(config) if config else None)
+        self.dirty = set()
+
+    def load(self, regs, fields, mem):
+        m = self.memory
+        for a in self.dirty:
+            if self.is_c:
+                m[a] = 0
+            else:
+                list.__setitem__(m, a, 0)
+        self.dirty = set(mem)
+        for a, v in mem.items():
+            if self.is_c:
+                m[a] = v
+            else:
+                list.__setitem__(m, a, v)
+        if not self.is_c:
+            m.log = []
+        r = self.sim.registers
+        for i, v in enumerate(regs):
+            r[i] = v
+        for i, v in enumerate(fields):
+            r[24 + i] = v
+        self.before = bytes(m) if self.is_c else None
+
+    def step(self):
+        self.sim.run(self.sim.registers[24])
+
+    def result(self):
+        r = list(self.sim.registers)
+        if self.is_c:
+            after = bytes(self.memory)
+            cells = {}
+            if after != self.before:
+                for base in range(0, 65536, 1024):
+                    if after[base:base + 1024] != self.before[base:base + 1024]:
+                        cells.update({a: after[a] for a in range(base, base + 1024) if after[a] != self.before[a]})
+            self.dirty |= set(cells)
+            return r, cells, []
+        log = list(self.memory.log)
+        self.dirty |= {a for a, _ in log if 0 <= a < 65536}
+        cells = {}
+        for a, v in log:
+            cells[a] = v
+        return r, cells, log
+
+
+def fast_vs_iterated(chk, sim_cls, c_cls, only=None, oracle_only=False):
+    """Simulator(config fast_djnz/fast_ldir) executes DJNZ-to-itself / LDIR / LDDR in one call.  (a) the property
+    oracle of C08 on that call: no ROM write, every register / cell in range, clock not decreasing; (b) C06: the same
+    final state (all registers incl. R and T, PC, memory) as the per-iteration closure executed until the loop counter
+    reaches the same value, on the Python simulator without the option and on the C simulator (which has no such option).
+    -> list of (key, description, replay) findings; the caller decides which belong to its property."""
+    rng = chk.rng
+    fast = FastRunner(sim_cls, {'fast_djnz': True, 'fast_ldir': True})
+    slow = FastRunner(sim_cls, None)
+    cs = FastRunner(c_cls, None, is_c=True) if c_cls is not None else None
+    found = []
+    cases = [only] if only else fast_cases(rng, chk.scale(450, 6000))
+    for kind, regs, fields, mem in cases:
+        mem = {int(k): v for k, v in mem.items()}
+        rep = {'kind': 'fast', 'case': [kind, regs, fields, {str(k): v for k, v in mem.items()}]}
+        chk.case(f'fast:{kind}', (kind, tuple(regs), tuple(fields)), {'loop': kind, 'pc': fields[0], 'B': regs[2], 'C': regs[3], 'DE': regs[5] + 256 * regs[4], 'iff': fields[2]} if kind == 'ldir' and len(chk.samples) < 11 else None)
+        fast.load(regs, fields, mem)
+        try:
+            fast.step()
+        except Exception as e:
+            found.append(('oracle', f'exception:py-fast:{kind}', f'Simulator(fast) {kind}: {type(e).__name__}: {e}', rep))
+            fast.dirty = set(range(0, 65536, 1))
+            fast = FastRunner(sim_cls, {'fast_djnz': True, 'fast_ldir': True})
+            continue
+        fr, fcells, flog = fast.result()
+        bad = None
+        for i, v in enumerate(fr[:24]):
+            if not 0 <= v < (65536 if i == 12 else 256):
+                bad = ('register-range', f'register {i} = {v}')
+        if not 0 <= fr[24] < 65536:
+            bad = ('pc-range', f'PC = {fr[24]}')
+        if fr[25] < fields[1]:
+            bad = ('clock-decreased', f'T {fields[1]} -> {fr[25]}')
+        for a, v in flog:
+            if a < 0x4000:
+                bad = ('rom-write', f'write {v} to ROM address {a}')
+            elif not 0 <= v < 256:
+                bad = ('cell-range', f'memory[{a}] = {v}')
+        if bad:
+            found.append(('oracle', f'{bad[0]}:py-fast:{kind}', f'Simulator(fast_djnz/fast_ldir) {kind} at {fields[0]} B={regs[2]} C={regs[3]} DE={regs[5] + 256 * regs[4]}: {bad[1]}', rep))
+        if oracle_only:
+            continue
+        # per-iteration references, stepped until the loop counter equals the fast result's (at least once)
+        target = (fr[2],) if kind == 'djnz' else (fr[2], fr[3])
+        for name, ref in (('py-plain', slow), ('c-plain', cs)):
+            if ref is None:
+                continue
+            ref.load(regs, fields, mem)
+            steps = 0
+            try:
+                while True:
+                    ref.step()
+                    steps += 1
+                    rr = ref.sim.registers
+                    cur = (rr[2],) if kind == 'djnz' else (rr[2], rr[3])
+                    if cur == target or steps > 70000:
+                        break
+            except Exception as e:
+                found.append(('pair', f'exception:{name}:{kind}', f'{name} {kind}: {type(e).__name__}: {e}', rep))
+                continue
+            rr, rcells, _ = ref.result()
+            fm = {a: v for a, v in fcells.items() if mem.get(a, 0) != v}
+            rm = {a: v for a, v in rcells.items() if mem.get(a, 0) != v}
+            if fr[:29] != rr[:29] or fm != rm:
+                diff = [i for i in range(29) if fr[i] != rr[i]]
+                md = sorted(set(fm.items()) ^ set(rm.items()))[:6]
+                found.append(('pair', f'py-fast-vs-{name}:{kind}', f'Simulator with fast_djnz/fast_ldir vs {name} stepped {steps} time(s), {kind} at PC={fields[0]} B={regs[2]} C={regs[3]} '
+                              f'DE={regs[5] + 256 * regs[4]} HL={regs[7] + 256 * regs[6]} IFF={fields[2]}: registers {diff} differ ({[fr[i] for i in diff]} vs {[rr[i] for i in diff]}); memory differences {md}', rep))
+    return found
+
+
+CLOCK_SLOTS = {('MAIN', 0x76): 4, ('ED', 0x57): 9, ('ED', 0x5F): 9}     # HALT, LD A,I, LD A,R: T-states before the clock is read
+
+
+def window_states(rng, tbl, op, frame=69888, int_active=32):
+    """HALT and LD A,I / LD A,R read the clock after adding their own T-states and compare it with the end of the
+    interrupt window: every run, the instruction ending one before / exactly on / one after the end of the window and
+    on the frame boundary, with IFF set and reset, halted and not (outside the contended part of the frame, so the
+    contended simulators add no delay)."""
+    dur = CLOCK_SLOTS.get((tbl, op))
+    if dur is None:
+        return
+    for k in (0, 1, 3):
+        for end in (int_active - 1, int_active, int_active + 1, 0, frame - 1, 1):
+            for iff in (1, 0):
+                regs, fields, mem, ins, tracers = simcorr.rand_state(rng, tbl, op, t_bias=t_bias)
+                fields[1] = frame * (k + 1) + end - dur
+                fields[2] = iff
+                if tbl == 'MAIN':
+                    fields[4] = rng.randrange(2)
+                yield regs, fields, mem, ins, tracers
+
+
+GRID16 = (0x0000, 0x0001, 0x0FFF, 0x1000, 0x7FFF, 0x8000, 0x8001, 0xFFFE, 0xFFFF)
+GRID8 = (0x00, 0x01, 0x0F, 0x10, 0x7F, 0x80, 0xFF)
+GRID16_T = (0x0000, 0x0001, 0x00FF, 0x0100, 0x0FFF, 0x1000, 0x3FFF, 0x4000, 0x7FFF, 0x8000, 0x8001, 0xEFFF, 0xF000, 0xFFFE, 0xFFFF)
+GRID8_T = (0x00, 0x01, 0x0F, 0x10, 0x7F, 0x80, 0x99, 0x9A, 0xF0, 0xFF)
+# slots whose flags the simulators compute by hand (no lookup table): 16-bit arithmetic, block
+# instructions, RLD/RRD - the C bodies repeat these formulas independently of the Python ones
+ARITH16 = ([('MAIN', o) for o in (0x09, 0x19, 0x29, 0x39)] + [('DD', o) for o in (0x09, 0x19, 0x29, 0x39)]
+           + [('FD', o) for o in (0x09, 0x19, 0x29, 0x39)]
+           + [('ED', o) for o in (0x42, 0x52, 0x62, 0x72, 0x4A, 0x5A, 0x6A, 0x7A)])
+BLOCK8 = [('ED', o) for o in (0xA0, 0xA1, 0xA2, 0xA3, 0xA8, 0xA9, 0xAA, 0xAB, 0xB0, 0xB1, 0xB2, 0xB3, 0xB8, 0xB9, 0xBA, 0xBB,
+                              0x67, 0x6F)]
+
+
+def operand_grids(rng, thorough=False, counters=(0, 1, 2, 0x100, 0x101, 0xFFFF)):
+    """Directed operand grids: all pairs of 16-bit boundary operands x carry for the 16-bit arithmetic slots;
+    A x (HL) x counter boundaries for block instructions and RLD/RRD.  -> ((tbl, op), state)"""
+    g16 = GRID16_T if thorough else GRID16
+    g8 = GRID8_T if thorough else GRID8
+    for tbl, op in ARITH16:
+        dst = {'MAIN': (6, 7), 'ED': (6, 7), 'DD': (8, 9), 'FD': (10, 11)}[tbl]
+        src = ((2, 3), (4, 5), dst, None)[(op >> 4) & 3]
+        for x in g16:
+            for y in g16:
+                if src == dst and x != y:
+                    continue
+                for cf in (0, 1):
+                    regs, fields, mem, ins, tracers = simcorr.rand_state(rng, tbl, op, t_bias=t_bias)
+                    regs[dst[0]], regs[dst[1]] = x >> 8, x & 255
+                    if src is None:
+                        regs[12] = y
+                    else:
+                        regs[src[0]], regs[src[1]] = y >> 8, y & 255
+                    regs[1] = (regs[1] & 0xFE) | cf
+                    tracers[0] = 1 if (tracers[0] or tracers[1] or tracers[2]) else 0
+                    yield (tbl, op), (regs, fields, mem, ins, tracers)
+    for tbl, op in BLOCK8:
+        for a in g8:
+            for v in g8:
+                for bc in counters:
+                    regs, fields, mem, ins, tracers = simcorr.rand_state(rng, tbl, op, t_bias=t_bias)
+                    regs[0] = a
+                    regs[2], regs[3] = bc >> 8, bc & 255
+                    hl = regs[7] + 256 * regs[6]
+                    pc = fields[0]
+                    if hl in (pc, (pc + 1) % 65536) or hl < 0x4000:
+                        continue
+                    mem[hl] = v
+                    ins = [v, ins[1]]
+                    tracers[0] = 1 if (tracers[0] or tracers[1] or tracers[2]) else 0
+                    yield (tbl, op), (regs, fields, mem, ins, tracers)
+
+
 def build_impls(chk):
     """The four real implementations, wrapped for single-step execution."""
     simulator, cmiosimulator = fresh_import('skoolkit.simulator', 'skoolkit.cmiosimulator')
